@@ -219,7 +219,7 @@ package ir
 //
 //@ func markStmtExprRefs
 //@   mode bv
-//@   tags C13 C09
+//@   tags C13 C09 C10
 //@   ghostcall markStmtExprRefs visitedBlock
 //@   traverse stepmark 1 stmts Block visitedBlock($)
 //@   traverse stepmark 1 stmts ExpressionHandle int($) < len(referenced) ==> referenced[int($)]
@@ -234,7 +234,7 @@ package ir
 //
 //@ func markStmtExprRefsForCompact
 //@   mode bv
-//@   tags C13 C09
+//@   tags C13 C09 C10
 //@   ghostcall markStmtExprRefsForCompact visitedBlock
 //@   traverse stepmark 1 stmts Block visitedBlock($)
 //@   traverse stepmark 1 stmts ExpressionHandle int($) < len(referenced) ==> referenced[int($)]
@@ -248,7 +248,7 @@ package ir
 //
 //@ func remapStmtExprHandles
 //@   mode bv
-//@   tags C13 C09
+//@   tags C13 C09 C10
 //@   ghostcall remapStmtExprHandles visitedBlock
 //@   traverse stepmark 1 stmts Block visitedBlock($)
 //@   traverse stepremap 1 stmts ExpressionHandle rmh(remap, $)
